@@ -31,6 +31,50 @@ def depth_tuple(ctx):
         return None
 
 
+TOOL = 3  # a free sys.monitoring tool id
+_mon = {"on": False}
+
+
+def _line_cb(code, line):
+    st = PROBE.get("line_state")
+    if st is None or code is not st["code"]:
+        return sys.monitoring.DISABLE
+    if line in st["boundaries"]:
+        st["checks"] += 1
+        d = depth_tuple(st["ctx"])
+        if d != st["initial"] and st["first_bad"] is None:
+            st["first_bad"] = {"python_line": line, "depths": d, "initial": st["initial"],
+                               "line_text": st["lines"][line - 1][:120] if line - 1 < len(st["lines"]) else ""}
+    return None
+
+
+def _arm_line_monitor(source, ns):
+    """M-LINE: LINE events set *locally* on the transpiled program's code object;
+    at the first line of every top-level Python statement the four bookkeeping
+    stacks must be at their initial depth."""
+    import ast as _ast
+
+    try:
+        tree = _ast.parse(source)
+        code = compile(source, "<vyxal-program>", "exec")
+    except SyntaxError:
+        return source
+    if not _mon["on"]:
+        try:
+            sys.monitoring.use_tool_id(TOOL, "verif-line")
+        except ValueError:
+            pass
+        sys.monitoring.register_callback(TOOL, sys.monitoring.events.LINE, _line_cb)
+        _mon["on"] = True
+    PROBE["line_state"] = {
+        "code": code, "ctx": ns["ctx"], "initial": depth_tuple(ns["ctx"]),
+        "boundaries": {st.lineno for st in tree.body}, "checks": 0, "first_bad": None,
+        "lines": source.split("\n"),
+    }
+    sys.monitoring.set_local_events(TOOL, code, sys.monitoring.events.LINE)
+    return code
+
+
 def _exec_recorder(source, ns=None, *rest):
     PROBE["calls"] += 1
     first = PROBE["ns"] is None and isinstance(ns, dict) and "stack" in ns and "ctx" in ns
@@ -38,6 +82,8 @@ def _exec_recorder(source, ns=None, *rest):
         PROBE["ns"] = ns
         PROBE["source"] = source if isinstance(source, str) else None
         PROBE["depth_before"] = depth_tuple(ns["ctx"])
+        if PROBE.get("want_lines") and isinstance(source, str):
+            source = _arm_line_monitor(source, ns)
     try:
         if ns is None:
             # called with the caller's frame globals/locals (e.g. vy_exec): emulate
@@ -50,10 +96,20 @@ def _exec_recorder(source, ns=None, *rest):
         raise
     finally:
         if first:
+            st = PROBE.get("line_state")
+            if st is not None:
+                try:
+                    sys.monitoring.set_local_events(TOOL, st["code"], 0)
+                except Exception:  # noqa
+                    pass
             try:
                 PROBE["depth_after"] = depth_tuple(ns["ctx"])
-                PROBE["context_top"] = canon(ns["ctx"].context_values[-1]) if ns["ctx"].context_values else None
-                PROBE["stack_before_output"] = canon(ns.get("stack"), limit=400)
+                if PROBE.get("want_stack", True):
+                    PROBE["context_top"] = canon(ns["ctx"].context_values[-1]) if ns["ctx"].context_values else None
+                if PROBE.get("want_stack", True):
+                    PROBE["stack_before_output"] = canon(ns.get("stack"), limit=2000)
+                else:
+                    PROBE["stack_before_output"] = []
             except Watchdog:
                 raise
             except Exception as e:  # noqa
@@ -95,12 +151,13 @@ def install():
     _installed = True
 
 
-def run_impl(text, inputs=(), flags="", online=False, timeout=10):
+def run_impl(text, inputs=(), flags="", online=False, timeout=10, line_monitor=False, observe_stack=True):
     """Returns a dict: stdout, fd1, error, final_stack, depths, reads, probe_calls."""
     main = env.bind()
     install()
     PROBE.update(ns=None, source=None, depth_before=None, depth_after=None, raised=None,
-                 reads=[], stack_before_output=None, context_top=None)
+                 reads=[], stack_before_output=None, context_top=None, line_state=None,
+                 want_lines=line_monitor, want_stack=observe_stack)
     calls0 = PROBE["calls"]
     out = {"error": None}
     record = None
@@ -137,5 +194,9 @@ def run_impl(text, inputs=(), flags="", online=False, timeout=10):
     out["exec_raised"] = PROBE["raised"]
     out["reads"] = PROBE["reads"]
     out["code"] = PROBE["source"]
+    st = PROBE.get("line_state")
+    out["line_checks"] = st["checks"] if st else 0
+    out["line_first_bad"] = st["first_bad"] if st else None
+    PROBE["line_state"] = None
     PROBE["reads"] = None
     return out
